@@ -852,11 +852,11 @@ Definition nums_nonempty (h : header) : bool :=
   | None => true
   end.
 
-Lemma norm_file_attr_dir e : attr_is_dir (e_attr (HeaderProofs.norm_file e)) = attr_is_dir (e_attr e).
+Lemma norm_file_attr_dir cd ad e : attr_is_dir (e_attr (HeaderProofs.norm_file cd ad e)) = attr_is_dir (e_attr e).
 Proof. destruct e as [es nm ct at_ mt [[a|]|]]; reflexivity. Qed.
-Lemma norm_file_attr e : Spec.flat_opt (e_attr (HeaderProofs.norm_file e)) = Spec.flat_opt (e_attr e).
+Lemma norm_file_attr cd ad e : Spec.flat_opt (e_attr (HeaderProofs.norm_file cd ad e)) = Spec.flat_opt (e_attr e).
 Proof. destruct e as [es nm ct at_ mt [[a|]|]]; reflexivity. Qed.
-Lemma norm_file_mtime e : Spec.flat_opt (e_mtime (HeaderProofs.norm_file e)) = Spec.flat_opt (e_mtime e).
+Lemma norm_file_mtime cd ad e : Spec.flat_opt (e_mtime (HeaderProofs.norm_file cd ad e)) = Spec.flat_opt (e_mtime e).
 Proof. destruct e as [es nm ct at_ [[m|]|] a]; reflexivity. Qed.
 
 Lemma nthZ_mask : forall (dd : list bool) (dg : list Z) i d, length dd = length dg -> nthZ dd i = Ok d ->
@@ -869,16 +869,16 @@ Proof.
   - simpl in Hn, HL. injection HL as HL. destruct (IH dd dg Hn HL) as [g [H1 H2]]. exists g. split; assumption.
 Qed.
 
-Lemma assign_loop_norm : forall files m fid nums sizes dd dg fo os inp fst nf, length dd = length dg ->
-  assign_loop m (map HeaderProofs.norm_file files) fid nums sizes dd (HeaderProofs.mask_digests dg dd) fo os inp fst nf =
+Lemma assign_loop_norm cd ad : forall files m fid nums sizes dd dg fo os inp fst nf, length dd = length dg ->
+  assign_loop m (map (HeaderProofs.norm_file cd ad) files) fid nums sizes dd (HeaderProofs.mask_digests dg dd) fo os inp fst nf =
   assign_loop m files fid nums sizes dd dg fo os inp fst nf.
 Proof.
   induction files as [|e r IH]; intros m fid nums sizes dd dg fo os inp fst nf HL; [reflexivity|].
-  change (map HeaderProofs.norm_file (e :: r)) with (HeaderProofs.norm_file e :: map HeaderProofs.norm_file r).
+  change (map (HeaderProofs.norm_file cd ad) (e :: r)) with (HeaderProofs.norm_file cd ad e :: map (HeaderProofs.norm_file cd ad) r).
   rewrite !assign_loop_cons. cbn zeta.
   rewrite norm_file_attr_dir, norm_file_attr, norm_file_mtime.
-  change (e_emptystream (HeaderProofs.norm_file e)) with (e_emptystream e).
-  change (e_name (HeaderProofs.norm_file e)) with (e_name e).
+  change (e_emptystream (HeaderProofs.norm_file cd ad e)) with (e_emptystream e).
+  change (e_name (HeaderProofs.norm_file cd ad e)) with (e_name e).
   destruct (e_emptystream e).
   - rewrite (IH m (fid + 1) nums sizes dd dg fo os inp fst nf HL). reflexivity.
   - destruct (_ || _); [reflexivity|].
@@ -896,23 +896,23 @@ Proof.
   induction fs as [|f fs IH]; intros [|n ns]; try reflexivity. simpl. rewrite IH. reflexivity.
 Qed.
 
-Lemma enumerate_norm : forall files i,
-  map (fun '(i, e) => empty_plan i e) (enumerate_from i (map HeaderProofs.norm_file files)) =
+Lemma enumerate_norm cd ad : forall files i,
+  map (fun '(i, e) => empty_plan i e) (enumerate_from i (map (HeaderProofs.norm_file cd ad) files)) =
   map (fun '(i, e) => empty_plan i e) (enumerate_from i files).
 Proof.
   induction files as [|e r IH]; intros i; [reflexivity|]. simpl. rewrite IH. f_equal.
   unfold empty_plan. rewrite norm_file_attr_dir, norm_file_attr, norm_file_mtime. reflexivity.
 Qed.
 
-Lemma has_data_norm files :
-  existsb (fun e => negb (e_emptystream e)) (map HeaderProofs.norm_file files) = existsb (fun e => negb (e_emptystream e)) files.
+Lemma has_data_norm cd ad files :
+  existsb (fun e => negb (e_emptystream e)) (map (HeaderProofs.norm_file cd ad) files) = existsb (fun e => negb (e_emptystream e)) files.
 Proof. induction files as [|e r IH]; [reflexivity|]. simpl. rewrite IH. reflexivity. Qed.
 
 Theorem impl_plans_norm lim en h :
   HeaderProofs.wf_header lim en h = true -> sizes_canonical h = true -> nums_nonempty h = true ->
   impl_plans (HeaderProofs.norm en h) = impl_plans h.
 Proof.
-  intros Hwf Hcan Hne. destruct h as [st fl ef]. unfold HeaderProofs.norm. cbn [h_streams h_files h_emptyfiles].
+  intros Hwf Hcan Hne. destruct h as [st fl ef]. unfold HeaderProofs.norm, HeaderProofs.norm_files. cbn [h_streams h_files h_emptyfiles].
   destruct fl as [files|]; [|reflexivity]. cbn [option_map].
   destruct st as [[pk fo sb]|].
   2:{ cbn [option_map]. rewrite !impl_plans_nostreams. unfold py_enumerate. rewrite enumerate_norm. reflexivity. }
@@ -1066,8 +1066,9 @@ Proof.
 Qed.
 Lemma all_named_norm_canon en h : all_named_h (HeaderProofs.norm en (canon_header h)) = all_named_h h.
 Proof.
-  destruct h as [st [fl|] ef]; [|reflexivity]. unfold all_named_h, HeaderProofs.norm, canon_header.
-  cbn [h_files option_map]. induction fl as [|e r IH]; [reflexivity|]. simpl. rewrite IH. reflexivity.
+  destruct h as [st [fl|] ef]; [|reflexivity]. unfold all_named_h, HeaderProofs.norm, HeaderProofs.norm_files, canon_header.
+  cbn [h_files option_map]. generalize (has_time e_ctime fl) (has_time e_atime fl). intros cd ad.
+  induction fl as [|e r IH]; [reflexivity|]. simpl. rewrite IH. reflexivity.
 Qed.
 
 Lemma last_is_main_norm_canon f : last_is_main (HeaderProofs.norm_folder (canon_folder f)) = last_is_main f.
@@ -1080,7 +1081,7 @@ Lemma recover_agrees_norm_canon : forall fs ns,
 Proof.
   induction fs as [|f fs IH]; intros [|n ns]; try reflexivity. simpl. rewrite IH, last_is_main_norm_canon. reflexivity.
 Qed.
-Lemma count_data_norm files : count_data (map HeaderProofs.norm_file files) = count_data files.
+Lemma count_data_norm cd ad files : count_data (map (HeaderProofs.norm_file cd ad) files) = count_data files.
 Proof. induction files as [|e r IH]; [reflexivity|]. simpl map. rewrite !count_data_cons, IH. reflexivity. Qed.
 Lemma mask_digests_length : forall (dd : list bool) (dg : list Z), length dd = length dg ->
   length (HeaderProofs.mask_digests dg dd) = length dg.
@@ -1093,7 +1094,7 @@ Lemma base_ok_norm_canon en h :
   base_ok (HeaderProofs.norm en (canon_header h)) = true.
 Proof.
   intros Hb Hr Hne. destruct h as [st fl ef]. unfold base_ok, recover_all, nums_nonempty in *.
-  unfold HeaderProofs.norm, canon_header. cbn [h_streams h_files h_emptyfiles] in *.
+  unfold HeaderProofs.norm, HeaderProofs.norm_files, canon_header. cbn [h_streams h_files h_emptyfiles] in *.
   destruct st as [[pk fo sb]|]; cbn [option_map].
   - cbn [si_pack si_folders si_sub] in *. destruct pk as [p|]; [|discriminate Hb]. destruct fo as [fs|]; [|discriminate Hb].
     destruct sb as [x|]; [|discriminate Hb]. destruct fl as [files|]; [|discriminate Hb].
@@ -1109,6 +1110,7 @@ Proof.
     rewrite !andb_true_r.
     destruct (HeaderProofs.sub_multi x); [destruct (s_sizes x)|]; rewrite ?recover_agrees_norm_canon; assumption.
   - destruct fl as [files|]; [|reflexivity]. cbn [option_map].
+    generalize (has_time e_ctime files) (has_time e_atime files). intros cd ad.
     clear -Hb. induction files as [|e r IH]; [reflexivity|]. simpl in *. apply andb_prop in Hb as [He Hr0].
     rewrite He, (IH Hr0). reflexivity.
 Qed.
@@ -1150,6 +1152,121 @@ Proof.
   intros h0 s h1 h2 Hg Ps H1 H2.
   apply (reopen_checked_keeps lim pw posf dflt h1 h2); [|exact H2].
   eapply append_session_base_ok; eassumption.
+Qed.
+
+(* ================================================================== *)
+(* Creation and access times of earlier entries survive                 *)
+(* ================================================================== *)
+(* (since the repair of FilesInfo.write: CREATION_TIME / LAST_ACCESS_TIME are written back whenever some entry
+   has a defined value).  No hypothesis on the base beyond what makes the header round trip hold. *)
+Definition entry_times (e : fileent) : option Z * option Z := (Spec.flat_opt (e_ctime e), Spec.flat_opt (e_atime e)).
+Definition times_of (h : header) : list (option Z * option Z) :=
+  match h_files h with Some fl => map entry_times fl | None => [] end.
+Definition files_list (h : header) : list fileent := match h_files h with Some fl => fl | None => [] end.
+
+Lemma add_members_files : forall ms h h2, add_members h ms = Ok h2 -> files_list h2 = files_list h ++ map m_file ms.
+Proof.
+  induction ms as [|m r IH]; intros h h2 H; simpl in H.
+  - injection H as <-. simpl. rewrite app_nil_r. reflexivity.
+  - bind_inv H h1 H1. rewrite (IH h1 h2 H). simpl map.
+    assert (E : files_list h1 = files_list h ++ [m_file m]).
+    { unfold add_member in H1. destruct (h_files h) as [fl|] eqn:Ef; [|discriminate H1].
+      unfold files_list at 2. rewrite Ef.
+      destruct (m_stream m) as [[sz crc]|].
+      - destruct (h_streams h) as [st|]; [|discriminate H1]. destruct (si_sub st) as [sb|]; [|discriminate H1].
+        bind_inv H1 s' Hs'. injection H1 as <-. reflexivity.
+      - injection H1 as <-. reflexivity. }
+    rewrite E, <- app_assoc. reflexivity.
+Qed.
+
+(* the graph at close: the earlier entries are the very same records, the session's entries follow *)
+Theorem append_session_files pw h nf ms psz pcrc h' :
+  append_session pw h nf ms psz pcrc = Ok h' -> files_list h' = files_list h ++ map m_file ms.
+Proof.
+  unfold append_session. destruct ms as [|m0 r] eqn:Ems.
+  { intros H. injection H as <-. simpl. rewrite app_nil_r. reflexivity. }
+  rewrite <- Ems. clear Ems m0 r. intros H. bind_inv H h1 H1. bind_inv H h2 H2.
+  assert (E1 : files_list h1 = files_list h).
+  { unfold initialize in H1. destruct (h_streams h) as [st|].
+    - bind_inv H1 sub' Hsub. injection H1 as <-. reflexivity.
+    - injection H1 as <-. unfold files_list. cbn [h_files]. destruct (h_files h); reflexivity. }
+  assert (E2 : files_list h' = files_list h2).
+  { unfold flush in H. destruct (h_streams h2) as [st|]; [|discriminate H].
+    destruct (si_folders st); [|discriminate H]. destruct (si_pack st); [|discriminate H]. injection H as <-. reflexivity. }
+  rewrite E2, (add_members_files ms h1 h2 H2), E1. reflexivity.
+Qed.
+
+Lemma times_of_files h : times_of h = map entry_times (files_list h).
+Proof. unfold times_of, files_list. destruct (h_files h); reflexivity. Qed.
+
+Theorem append_session_times pw h nf ms psz pcrc h' :
+  append_session pw h nf ms psz pcrc = Ok h' ->
+  times_of h' = times_of h ++ map (fun m => entry_times (m_file m)) ms.
+Proof.
+  intros H. rewrite !times_of_files, (append_session_files pw h nf ms psz pcrc h' H), map_app, map_map. reflexivity.
+Qed.
+
+(* what close() writes reads back with the creation / access time of EVERY entry, at its position *)
+Theorem reserialise_keeps_times lim en pos h bs :
+  HeaderProofs.wf_header lim en (canon_header h) = true -> write_header en pos h = Ok bs ->
+  exists h2, parse_header lim bs = Ok h2 /\ times_of h2 = times_of h.
+Proof.
+  intros Hwf Hw. rewrite <- write_header_canon in Hw.
+  eexists. split; [exact (HeaderProofs.header_roundtrip lim en pos _ bs Hwf Hw)|].
+  unfold times_of, HeaderProofs.norm, canon_header. cbn [h_files].
+  destruct (h_files h) as [fl|]; [|reflexivity]. cbn [option_map].
+  exact (HeaderProofs.norm_files_times fl).
+Qed.
+
+Theorem append_then_reopen_times lim pw h nf ms psz pcrc h' pos bs :
+  append_session pw h nf ms psz pcrc = Ok h' ->
+  HeaderProofs.wf_header lim (enable_digests pw h) (canon_header h') = true ->
+  write_header (enable_digests pw h) pos h' = Ok bs ->
+  exists h2, parse_header lim bs = Ok h2 /\
+             times_of h2 = times_of h ++ map (fun m => entry_times (m_file m)) ms /\
+             firstn (length (times_of h)) (times_of h2) = times_of h.
+Proof.
+  intros Hs Hwf Hw. destruct (reserialise_keeps_times lim _ pos h' bs Hwf Hw) as [h2 [H1 H2]].
+  exists h2. split; [exact H1|]. rewrite H2, (append_session_times pw h nf ms psz pcrc h' Hs).
+  split; [reflexivity|]. rewrite firstn_app, Nat.sub_diag, firstn_all. simpl. apply app_nil_r.
+Qed.
+
+(* k sessions, the archive written and read back (and the generated names filled in) between them *)
+Lemma open_names_times dflt h : times_of (open_names dflt h) = times_of h.
+Proof.
+  unfold times_of, open_names. cbn [h_files]. destruct (h_files h) as [fl|]; [|reflexivity]. cbn [option_map].
+  rewrite map_map. apply map_ext. intros e. unfold fill_name. destruct (e_name e); reflexivity.
+Qed.
+
+Lemma install_sub_files h : h_files (Assign.install_sub h) = h_files h.
+Proof.
+  destruct h as [[st|] [fl|] ef]; try reflexivity. unfold Assign.install_sub. cbn [h_files h_streams].
+  destruct (si_folders st), (si_pack st), (si_sub st); reflexivity.
+Qed.
+Lemma open_graph_times dflt h : times_of (open_graph dflt h) = times_of h.
+Proof. unfold open_graph. rewrite open_names_times. unfold times_of. rewrite install_sub_files. reflexivity. Qed.
+
+Theorem reopen_checked_keeps_times lim pw posf dflt h1 h2 :
+  reopen_checked lim pw posf dflt h1 = Ok h2 -> times_of h2 = times_of h1.
+Proof.
+  unfold reopen_checked, reopen_guard. intros H.
+  destruct (_ && _) eqn:Eg in H; [|discriminate H].
+  apply andb_prop in Eg as [Eg _]. apply andb_prop in Eg as [Eg _]. apply andb_prop in Eg as [Eg _].
+  apply andb_prop in Eg as [Hwf _].
+  unfold reopen_via_bytes in H. bind_inv H bs Hw. bind_inv H hp Hparse. injection H as <-.
+  destruct (reserialise_keeps_times lim _ _ h1 bs Hwf Hw) as [hq [H1 H2]].
+  rewrite H1 in Hparse. injection Hparse as <-. rewrite open_graph_times. exact H2.
+Qed.
+
+Theorem append_sessions_preserve_times lim pw posf dflt : forall ss h hk,
+  append_sessions (reopen_checked lim pw posf dflt) pw h ss = Ok hk ->
+  exists ts, times_of hk = times_of h ++ ts.
+Proof.
+  induction ss as [|s r IH]; intros h hk Hs; simpl in Hs.
+  - injection Hs as <-. exists []. rewrite app_nil_r. reflexivity.
+  - bind_inv Hs h1 H1. bind_inv Hs h2 H2. destruct (IH h2 hk Hs) as [ts Hts].
+    rewrite Hts, (reopen_checked_keeps_times lim pw posf dflt h1 h2 H2), (append_session_times pw h _ _ _ _ h1 H1).
+    eexists. rewrite <- app_assoc. reflexivity.
 Qed.
 
 (* ================================================================== *)
@@ -1275,15 +1392,71 @@ Qed.
 (* ================================================================== *)
 (* What is NOT preserved                                               *)
 (* ================================================================== *)
-(* creation and access times are never written back: an append drops them from every earlier entry *)
-Theorem append_drops_ctime_atime_refuted :
+(* creation and access times: an append keeps them at every earlier entry (the concrete base that was the
+   witness of the defect C08-append-drops-ctime-atime before FilesInfo.write was repaired) *)
+Example append_keeps_ctime_atime_example :
   exists h' bs h2, append_session false x_foreign x_newfolder x_members 12 999 = Ok h' /\
     write_header (enable_digests false x_foreign) 84 h' = Ok bs /\ parse_header 1000 bs = Ok h2 /\
-    option_map (fun fl => map (fun e => (e_ctime e, e_atime e)) (firstn 1 fl)) (h_files x_foreign) = Some [(Some (Some 1), Some (Some 2))] /\
-    option_map (fun fl => map (fun e => (e_ctime e, e_atime e)) (firstn 1 fl)) (h_files h2) = Some [(None, None)].
+    times_of x_foreign = [(Some 1, Some 2); (None, None); (None, None)] /\
+    times_of h2 = times_of x_foreign ++ [(None, None); (None, None); (None, None)] /\
+    option_map (fun fl => map (fun e => (e_ctime e, e_atime e)) (firstn 2 fl)) (h_files h2) =
+      Some [(Some (Some 1), Some (Some 2)); (Some None, Some None)].
 Proof.
   eexists. eexists. eexists. split; [vm_compute; reflexivity|]. split; [vm_compute; reflexivity|].
-  split; [vm_compute; reflexivity|]. split; reflexivity.
+  split; [vm_compute; reflexivity|]. split; [reflexivity|]. split; reflexivity.
+Qed.
+
+(* the same through the theorem (its hypotheses are met by this state) *)
+Example append_keeps_ctime_atime_thm bs :
+  write_header (enable_digests false x_foreign) 84
+    (match append_session false x_foreign x_newfolder x_members 12 999 with Ok h' => h' | Err _ => x_foreign end) = Ok bs ->
+  exists h2, parse_header 1000 bs = Ok h2 /\ firstn 3 (times_of h2) = [(Some 1, Some 2); (None, None); (None, None)].
+Proof.
+  intros Hw.
+  destruct (append_session false x_foreign x_newfolder x_members 12 999) as [h'|] eqn:Hs; [|discriminate Hs].
+  destruct (append_then_reopen_times 1000 false x_foreign x_newfolder x_members 12 999 h' 84 bs Hs) as [h2 [H1 [_ H3]]].
+  - vm_compute in Hs. injection Hs as <-. vm_compute. reflexivity.
+  - exact Hw.
+  - exists h2. split; [exact H1|exact H3].
+Qed.
+
+(* regression: the writer as it was BEFORE the repair (FilesInfo.write without the two records) drops the
+   times of the earlier entry on the same state *)
+Definition write_files_unrepaired (pos : Z) (files : list fileent) (emptyfiles : list bool) : res bytes :=
+  do n <- wr_number (zlen files);
+  let es := map e_emptystream files in
+  let nes := count_true es in
+  let efl := firstn (Z.to_nat nes) (emptyfiles ++ repeat false (Z.to_nat nes)) in
+  do a <- (if any_true es then
+             do sz <- wr_number ((zlen files + 7) / 8);
+             do b <- (if any_true efl then do sz2 <- wr_number ((nes + 7) / 8); Ok ([15] ++ sz2 ++ wr_bits efl)
+                      else Ok []);
+             Ok ([14] ++ sz ++ wr_bits es ++ b)
+           else Ok []);
+  let p := pos + 1 + zlen n + zlen a in
+  let padlen0 := (- p) mod 4 in
+  let padlen := if (0 <? padlen0) && (padlen0 <=? 2) then padlen0 + 4 else padlen0 in
+  let pad := if 2 <? padlen then [25; padlen - 2] ++ repeatZ 0 (Z.to_nat (padlen - 2)) else [] in
+  do nm <- write_names files;
+  do tm <- write_times 20 e_mtime files;
+  do at_ <- write_attributes files;
+  Ok ([5] ++ n ++ a ++ pad ++ nm ++ tm ++ at_ ++ [0]).
+Definition write_header_unrepaired (enable_digests : bool) (pos : Z) (h : header) : res bytes :=
+  do a <- (match h_streams h with Some s => write_streams enable_digests s | None => Ok [] end);
+  do b <- (match h_files h with
+           | Some f => write_files_unrepaired (pos + 1 + zlen a) f (h_emptyfiles h)
+           | None => Ok []
+           end);
+  Ok ([1] ++ a ++ b ++ [0]).
+Example append_drops_ctime_atime_unrepaired :
+  exists h' bs h2, append_session false x_foreign x_newfolder x_members 12 999 = Ok h' /\
+    write_header_unrepaired (enable_digests false x_foreign) 84 h' = Ok bs /\ parse_header 1000 bs = Ok h2 /\
+    option_map (fun fl => map (fun e => (e_ctime e, e_atime e)) (firstn 1 fl)) (h_files x_foreign) = Some [(Some (Some 1), Some (Some 2))] /\
+    option_map (fun fl => map (fun e => (e_ctime e, e_atime e)) (firstn 1 fl)) (h_files h2) = Some [(None, None)] /\
+    times_of h2 <> times_of x_foreign ++ [(None, None); (None, None); (None, None)].
+Proof.
+  eexists. eexists. eexists. split; [vm_compute; reflexivity|]. split; [vm_compute; reflexivity|].
+  split; [vm_compute; reflexivity|]. split; [reflexivity|]. split; [reflexivity|]. vm_compute. discriminate.
 Qed.
 
 (* entries stored without a name get the generated one when the archive is opened, and the session writes it
@@ -1396,4 +1569,6 @@ Print Assumptions append_position_after_data.
 Print Assumptions append_sessions_preserve.
 Print Assumptions append_sessions_preserve_reopened.
 Print Assumptions append_then_reopen.
+Print Assumptions append_then_reopen_times.
+Print Assumptions append_sessions_preserve_times.
 Print Assumptions impl_plans_norm.
